@@ -96,10 +96,10 @@ var (
 	ieMode    = flag.String("ie", "off", "inflight expiry: off | instant | never")
 	probeN    = flag.Int("proben", 8, "maxSize of the probe's ReadInflight")
 	probeIDs  = flag.Int("probeids", 8, "number of ids (101..) given to the probe's Read")
-	watchdog  = flag.Duration("watchdog", 200*time.Millisecond, "per-call watchdog")
-	slowdog   = flag.Duration("slowdog", 3*time.Second, "watchdog of the confirming re-execution")
+	watchdog  = flag.Duration("watchdog", time.Second, "per-call watchdog")
+	slowdog   = flag.Duration("slowdog", 5*time.Second, "watchdog of the confirming re-execution")
 	retExp    = flag.Bool("retexp", true, "compare the expiry class of returned elements (stamping)")
-	workers   = flag.Int("workers", 0, "")
+	workers   = flag.Int("workers", 8, "replaying goroutines")
 	raw       = flag.Bool("raw", false, "stdin lines are plain JSON (replay) instead of TLA+ string literals")
 	verbose   = flag.Bool("v", false, "print what every call returned (replay/debug)")
 	rep       = tc.NewReporter()
@@ -269,7 +269,7 @@ func (r *real) call(f func() ([]*queue.Elem, string)) got {
 		r.q.Close() // the interface promises that Close unblocks Read
 		select {
 		case x = <-ch:
-		case <-time.After(5 * time.Second):
+		case <-time.After(r.wd):
 			x = res{res: "err:still blocked after Close"}
 		}
 	}
@@ -494,7 +494,11 @@ func compare(ctx string, op *Op, exp *Out, g *got, qual string) []diff {
 	}
 	// Notifier: dropped elements with reasons
 	if !sameDrops(exp.Drop, g.drops) {
-		ds = append(ds, diff{"drop:" + pfx + ":want=" + dropsSigExp(op, exp.Drop) + ",got=" + dropsSigGot(op, g.drops) + qual,
+		w, h := dropsSigExp(op, exp.Drop), dropsSigGot(op, g.drops)
+		if w == h {
+			h += "(another element)"
+		}
+		ds = append(ds, diff{"drop:" + pfx + ":want=" + w + ",got=" + h + qual,
 			fmt.Sprintf("%s: Notifier was told dropped %s, specification says %s", describe(op), fmtDropsGot(g.drops), fmtDropsExp(exp.Drop)), true})
 	}
 	// Notifier: sums of the deltas (only when everything else agreed: otherwise they merely echo the difference above)
@@ -744,8 +748,8 @@ func one(js []byte) {
 	o := run(&t, wd)
 	if o.absence {
 		// absence-type observation (a call did not return in time): only believed if it repeats with a long watchdog;
-		// once the same signature has been confirmed three times and 200 re-executions were spent, it is taken as is
-		if atomic.LoadInt64(&nAbsenceRetry) < 200 || (!o.tainted && !allConfirmed(blockedSigs(&o))) {
+		// once the same signature has been confirmed three times and 60 re-executions were spent, it is taken as is
+		if atomic.LoadInt64(&nAbsenceRetry) < 60 || (!o.tainted && !allConfirmed(blockedSigs(&o))) {
 			atomic.AddInt64(&nAbsenceRetry, 1)
 			o2 := run(&t, *slowdog)
 			if !o2.absence {
